@@ -262,3 +262,4 @@ Proof. exact (@CurveEvaluator_derivatives_tie_gen _ Rops). Qed.
 Print Assumptions C17_gen_CurveEvaluator_derivatives_anyspan_R.
 (* the two curve derivative algorithms are tied to DIFFERENT model functions (curve_derivs / curve_derivs2): their agreement is a
    property of the model (Props/C02.v / C17.v), not of the tie *)
+
